@@ -78,6 +78,11 @@ CHECKS = {
         "note": TRUST + " Partial in one respect: the justification clause of the refusals (an accepted concurrent modification with an equal or newer timestamp exists) is checked on real histories by lin_check, not proved for the model. Atomicity of the segments between H7 points and exclusiveness of scc entry guards are assumptions of the model; interleavings inside a segment are exercised only by the free-running histories.",
         "design": "DESIGN.md section 5 C07",
     },
+    "C08": {
+        "text": "Coq over Model/Extent.v (the extent pin / retire protocol: acquire_extent CAS, pread, release + identity check; retired bit, reader checks before the marker write and before the release, reuse by another key), for any number of readers and every interleaving: while a reader is pinned the blocks hold the generation's own record and no step changes them (pinned_not_overwritten), every completed read returned exactly that record or StaleExtent, never a marker or another key's bytes, and the retired bit admits no new reader. Tie: on real stores under racing readers, writers, deleters, TTL rewrites and flushes with immediate block reuse, the global trace of pin/unpin events and device writes must be accepted by the extracted monitor (no write into a pinned extent), and an oracle checks every returned value for authenticity and recency.",
+        "note": TRUST + " The model is of one extent and takes the sequential composition acquire -> load sector -> pread -> release from the code; the value_source chain of deferred TTL rewrites is exercised by the runs, not modelled separately. Recency is decided by the run-time oracle, not by a theorem.",
+        "design": "DESIGN.md section 5 C08",
+    },
     "C15": {
         "text": "Coq: the read-only recovery used for the migration source writes nothing for any image and outcome (source untouched); a successful migration spec means no destination existed, the source is v1/v2 with a successful read-only recovery, and the destination record list is exactly the recovered keys with identical timestamps and absolute expiries (TTL filtering off, so expired newest generations are copied and no older value can reappear). Tie: the real migrate() on engine-built and damaged legacy images vs migrate_spec of the source image (outcome, report, destination contents read back by the real store), with an oracle for non-destructiveness (source hash, no publication or temporary on failure, existing destination untouched, v3 result).",
         "note": TRUST + " Filesystem operations (hard_link publication, rollback, directory sync) are observed, not modelled; record-by-record verification inside migrate() is covered only through its outcome.",
